@@ -106,7 +106,13 @@ def run_mode(fl, E, rows, parts, mode, expected):
                     iv.value = to_float(x)
             elif mode == "arrays":
                 for j, iv in enumerate(e.input_variables):
-                    iv.value = np.array([to_float(r[j]) for r in batch])
+                    new = np.array([to_float(r[j]) for r in batch])
+                    cur = iv.value
+                    if isinstance(cur, np.ndarray) and cur.shape == new.shape and cur.flags.writeable and k % 2:
+                        cur[...] = new          # the caller keeps one buffer per input and updates it in place between two process() calls
+                        iv.value = cur
+                    else:
+                        iv.value = new
             else:
                 e.input_values = np.array([[to_float(x) for x in r] for r in batch])
             e.process()
